@@ -601,7 +601,14 @@ class Summaries(object):
         if depth > self.max_depth or f.id in stack:
             return False
         lifted = self.lift_must(pred, key, depth + 1, stack + (f.id,))
-        exits = cfg.exits_without(f, lifted)
+        # with constant propagation of named bool locals (`bool done = false; while (!done) { ... }` enters the loop)
+        fstep = flag_step(self.prog, f)
+
+        def step(st, ev):
+            if lifted(ev):
+                return None
+            return fstep(st, ev)
+        exits, _ = cfg.run_automaton(f, frozenset(), step, edge=flag_edge)
         res = bool(f.blocks) and not [x for x in exits if x.kind != "throw"]
         self._must[k] = res
         return res
